@@ -70,10 +70,30 @@ def _write_json(path, obj):
     os.replace(tmp, path)
 
 
+OUT = os.environ.get("VERIF_OUT", VERIF)          # experiments only: where replays/ and evidence/ are written
+
+
 def write_replay(pid, tag, payload):
-    path = os.path.join(VERIF, "replays", f"{pid}_{tag}.json")
+    path = os.path.join(OUT, "replays", f"{pid}_{tag}.json")
     _write_json(path, payload)
-    return os.path.relpath(path, VERIF)
+    return os.path.relpath(path, OUT) if OUT == VERIF else path
+
+
+def corpus_cases(pid, mod):
+    """Minimised failing inputs of past (seeded) regressions, kept under corpus/<pid>/: replayed on every run, before the verdict."""
+    d = os.path.join(VERIF, "corpus", pid)
+    kinds = set(getattr(mod, "CORPUS_KINDS", ()))
+    out = []
+    if kinds and os.path.isdir(d):
+        for fn in sorted(os.listdir(d)):
+            if fn.endswith(".json"):
+                try:
+                    data = json.load(open(os.path.join(d, fn)))
+                except ValueError:
+                    continue
+                if (data.get("case") or {}).get("kind") in kinds:
+                    out.append((fn, data))
+    return out
 
 
 def main(argv=None):
@@ -132,6 +152,15 @@ def _run(pid, tier, seed, replay, t0):
         rep = mod.replay(ctx, data)
     else:
         rep = mod.run(ctx)
+        ncorp = 0
+        for fn, data in corpus_cases(pid, mod):
+            r2 = mod.replay(Ctx(pid, tier, seed), data)
+            ncorp += 1
+            for v in r2.violations:
+                v["summary"] = f"[corpus {fn}] " + v["summary"]
+            rep.violations += r2.violations
+            rep.disagreements += r2.disagreements
+        rep.coverage["corpus_cases_replayed"] = ncorp
 
     # 4. verdict
     findings = K.load()
@@ -226,7 +255,7 @@ def _run(pid, tier, seed, replay, t0):
         }
         if rep.notes:
             ev["notes"] = rep.notes
-        _write_json(os.path.join(VERIF, "evidence", f"{pid}.json"), ev)
+        _write_json(os.path.join(OUT, "evidence", f"{pid}.json"), ev)
     if exit_code == 0:
         print(f"OK property={pid} tier={tier} theorems={discharged}/{obligations} "
               f"evaluations={rep.coverage.get('evaluations', 0)} known={len(known_hit)} wall={time.time() - t0:.1f}s")
